@@ -369,6 +369,14 @@ func genDepthContexts(ss *specStates, sw *shardWriter, tier string, st *genStats
 				mid := append(append(append([]byte{}, w...), br...), cl...)
 				segs := []seg{{[]byte("["), pad}, {mid, 1}, {[]byte("]"), pad}}
 				writeDoc(po, sw, &j, expandSegs(segs), segs, st)
+				// a second container at the same (deepest) level: the stack is already fully grown
+				sib := "," + br
+				if len(cl) > 0 && cl[0] == '}' {
+					sib = `,"s":` + br
+				}
+				mid2 := append(append(append(append([]byte{}, w...), br...), sib...), cl...)
+				segs2 := []seg{{[]byte("["), pad}, {mid2, 1}, {[]byte("]"), pad}}
+				writeDoc(po, sw, &j, expandSegs(segs2), segs2, st)
 			}
 		}
 	}
